@@ -623,10 +623,10 @@ End ReachSound.
 
 (* ------------------------------------- structured conversion keeps the keys *)
 
-Lemma to_cfg_obj_keys : forall cs t o n kv c,
-  to_cfg cs t o (VObj n kv) = Ok c -> exists kv', c = VDict kv' /\ map fst kv' = map fst kv.
+Lemma to_cfg_gen_obj_keys : forall st cs t o n kv c,
+  to_cfg_gen st cs t o (VObj n kv) = Ok c -> exists kv', c = VDict kv' /\ map fst kv' = map fst kv.
 Proof.
-  intros cs t o n kv c H. simpl in H.
+  intros st cs t o n kv c H. simpl in H.
   destruct (negb _); [discriminate|].
   destruct (find_class cs n) as [cd|]; [|discriminate].
   apply bind_ok in H. destruct H as [kv' [G E]]. inversion E; subst. exists kv'. split; [reflexivity|].
@@ -637,6 +637,10 @@ Proof.
     apply bind_ok in G. destruct G as [r' [Gr G]]. inversion G; subst.
     simpl. f_equal. apply IH. exact Gr.
 Qed.
+
+Lemma to_cfg_obj_keys : forall cs t o n kv c,
+  to_cfg cs t o (VObj n kv) = Ok c -> exists kv', c = VDict kv' /\ map fst kv' = map fst kv.
+Proof. intros cs. exact (to_cfg_gen_obj_keys false cs). Qed.
 
 Lemma complete_all_leaves : forall o d fs kv,
   map fst kv = map fst fs -> Forall (fun e => exists x, snd e = SLeaf x) fs ->
@@ -742,22 +746,52 @@ Proof.
   - apply (veq_kv_plain kv H).
 Qed.
 
-(* OmegaConf.structured + to_container changes no value: the container holds, key by key
-   and element by element, the value the attrs tree held (ints on float fields become the
-   float of the same value, tuples become lists, objects become dicts) *)
-Theorem to_cfg_preserves_values : forall cs v t o c, to_cfg cs t o v = Ok c -> veq v c = true.
+(* OmegaConf.structured + to_container changes no value of a COERCION-FREE tree (every scalar at a
+   field of its own type; `coercion_free` = the strict conversion succeeds): the container holds,
+   key by key and element by element, the value the attrs tree held (ints on float fields become
+   the float of the same value, tuples become lists, objects become dicts).  Without the
+   hypothesis the statement is false for the code: a typed OmegaConf node converts a scalar of
+   another type (123 at a str field is stored as "123") — see ex_coercion_changes_value. *)
+Definition to_cfg_list_go (st : bool) (cs : list class_def) (e : ty) :=
+  fix go (l : list cfg) : res (list cfg) :=
+    match l with
+    | [] => Ok []
+    | x :: r => bind (to_cfg_gen st cs e false x) (fun x' => bind (go r) (fun r' => Ok (x' :: r')))
+    end.
+
+
+Lemma to_cfg_strict_list : forall cs e l l',
+  Forall (fun v => forall t o c, to_cfg_gen true cs t o v = Ok c -> veq v c = true) l ->
+  to_cfg_list_go true cs e l = Ok l' -> veq_list l l' = true.
+Proof.
+  intros cs e. induction l as [|x r IH]; intros l' F G.
+  - inversion G; subst. reflexivity.
+  - simpl in G. apply bind_ok in G. destruct G as [x' [Gx G]].
+    apply bind_ok in G. destruct G as [r' [Gr G]]. inversion G; subst.
+    inversion F as [|y l0 Hx Hr]; subst. simpl. rewrite (Hx _ _ _ Gx). apply IH; assumption.
+Qed.
+
+Lemma to_cfg_strict_preserves : forall cs v t o c, to_cfg_gen true cs t o v = Ok c -> veq v c = true.
 Proof.
   intros cs. induction v using cfg_ind'; intros t o c0 T.
   - simpl in T. destruct (o || ty_any t); inversion T; reflexivity.
   - simpl in T. inversion T; reflexivity.
-  - simpl in T. destruct t; inversion T; simpl; apply Bool.eqb_reflx.
-  - simpl in T. destruct t; inversion T; simpl; [apply Z.eqb_refl | apply Z.eqb_refl | apply q_eqb_refl].
-  - simpl in T. destruct t; inversion T; simpl; apply q_eqb_refl.
-  - simpl in T. destruct t; inversion T; destruct k; reflexivity.
-  - simpl in T. destruct t; inversion T; simpl; apply String.eqb_refl.
-  - simpl in T. assert (c0 = plain (VList l)) as -> by (destruct t; inversion T; reflexivity). apply veq_plain.
-  - simpl in T. assert (c0 = plain (VList l)) as -> by (destruct t; inversion T; reflexivity).
-    exact (veq_plain (VList l)).
+  - destruct t; simpl in T; try discriminate T; inversion T; simpl; apply Bool.eqb_reflx.
+  - destruct t; simpl in T; try discriminate T; inversion T; simpl;
+      [apply Z.eqb_refl | apply Z.eqb_refl | apply q_eqb_refl].
+  - destruct t; simpl in T; try discriminate T; inversion T; simpl; apply q_eqb_refl.
+  - destruct t; simpl in T; try discriminate T; inversion T; destruct k; reflexivity.
+  - destruct t; simpl in T; try discriminate T; inversion T; simpl; apply String.eqb_refl.
+  - destruct t; simpl in T; try discriminate T;
+      try (assert (c0 = plain (VList l)) as -> by (inversion T; reflexivity); apply veq_plain).
+    change (bind (to_cfg_list_go true cs t l) (fun l' => Ok (VList l')) = Ok c0) in T.
+    apply bind_ok in T. destruct T as [l' [G E]]. inversion E; subst.
+    change (veq_list l l' = true). eapply to_cfg_strict_list; eassumption.
+  - destruct t; simpl in T; try discriminate T;
+      try (assert (c0 = plain (VList l)) as -> by (inversion T; reflexivity); exact (veq_plain (VList l))).
+    change (bind (to_cfg_list_go true cs t l) (fun l' => Ok (VList l')) = Ok c0) in T.
+    apply bind_ok in T. destruct T as [l' [G E]]. inversion E; subst.
+    change (veq_list l l' = true). eapply to_cfg_strict_list; eassumption.
   - simpl in T. assert (c0 = plain (VDict kv)) as -> by (destruct t; inversion T; reflexivity). apply veq_plain.
   - simpl in T. destruct (negb _); [discriminate|]. destruct (find_class cs c) as [cd|]; [|discriminate].
     apply bind_ok in T. destruct T as [kv' [G E]]. inversion E; subst. clear E.
@@ -769,6 +803,48 @@ Proof.
       apply bind_ok in G. destruct G as [r' [Gr G]]. inversion G; subst.
       inversion H as [|e l Hx Hr]; subst. simpl in Hx.
       simpl. rewrite String.eqb_refl, (Hx _ _ _ Gx). apply IH; assumption.
+Qed.
+
+(* where the strict conversion succeeds the code's conversion returns the same container *)
+Lemma to_cfg_strict_agrees : forall cs v t o c, to_cfg_gen true cs t o v = Ok c -> to_cfg_gen false cs t o v = Ok c.
+Proof.
+  intros cs. induction v using cfg_ind'; intros t o c0 T;
+    try (destruct t; simpl in T |- *; try discriminate T; exact T).
+  - destruct t; simpl in T |- *; try discriminate T; try exact T.
+    change (bind (to_cfg_list_go true cs t l) (fun l' => Ok (VList l')) = Ok c0) in T.
+    change (bind (to_cfg_list_go false cs t l) (fun l' => Ok (VList l')) = Ok c0).
+    apply bind_ok in T. destruct T as [l' [G E]].
+    assert (to_cfg_list_go false cs t l = Ok l') as ->; [|exact E]. clear E. revert l' G.
+    induction l as [|x r IH]; intros l' G; [exact G|].
+    simpl in G |- *. apply bind_ok in G. destruct G as [x' [Gx G]].
+    apply bind_ok in G. destruct G as [r' [Gr G]]. inversion H as [|y l0 Hx Hr]; subst.
+    rewrite (Hx _ _ _ Gx). simpl. rewrite (IH Hr _ Gr). exact G.
+  - destruct t; simpl in T |- *; try discriminate T; try exact T.
+    change (bind (to_cfg_list_go true cs t l) (fun l' => Ok (VList l')) = Ok c0) in T.
+    change (bind (to_cfg_list_go false cs t l) (fun l' => Ok (VList l')) = Ok c0).
+    apply bind_ok in T. destruct T as [l' [G E]].
+    assert (to_cfg_list_go false cs t l = Ok l') as ->; [|exact E]. clear E. revert l' G.
+    induction l as [|x r IH]; intros l' G; [exact G|].
+    simpl in G |- *. apply bind_ok in G. destruct G as [x' [Gx G]].
+    apply bind_ok in G. destruct G as [r' [Gr G]]. inversion H as [|y l0 Hx Hr]; subst.
+    rewrite (Hx _ _ _ Gx). simpl. rewrite (IH Hr _ Gr). exact G.
+  - simpl in T |- *. destruct (negb _); [discriminate|]. destruct (find_class cs c) as [cd|]; [|discriminate].
+    apply bind_ok in T. destruct T as [kv' [G E]].
+    match goal with |- bind ?m _ = _ => assert (m = Ok kv') as ->; [|exact E] end. clear E. revert kv' G.
+    induction kv as [|[k x] r IH]; intros kv' G; [exact G|].
+    destruct (find_field cd k) as [f|]; [|discriminate].
+    apply bind_ok in G. destruct G as [x' [Gx G]].
+    apply bind_ok in G. destruct G as [r' [Gr G]]. inversion H as [|e l Hx Hr]; subst. simpl in Hx.
+    rewrite (Hx _ _ _ Gx). simpl. rewrite (IH Hr _ Gr). exact G.
+Qed.
+
+Theorem to_cfg_preserves_values : forall cs v t o c,
+  coercion_free cs t o v = true -> to_cfg cs t o v = Ok c -> veq v c = true.
+Proof.
+  intros cs v t o c F T. unfold coercion_free in F.
+  destruct (to_cfg_gen true cs t o v) as [c0|] eqn:S; [|discriminate F].
+  pose proof (to_cfg_strict_agrees _ _ _ _ _ S) as A. unfold to_cfg in T. rewrite A in T. inversion T; subst.
+  exact (to_cfg_strict_preserves _ _ _ _ _ S).
 Qed.
 
 Lemma veq_kv_lookup : forall x y k a, veq_kv x y = true -> lookup k x = Some a ->
@@ -794,6 +870,119 @@ Proof.
       destruct (veq_kv_lookup kv kv0 k a1 V L) as [b1 [Lb Vb]]. simpl. rewrite Lb. apply (IH a1 b1 x Vb G).
 Qed.
 
-Theorem to_cfg_value_at : forall cs v t o c p x, to_cfg cs t o v = Ok c -> get p v = Some x ->
+Theorem to_cfg_value_at : forall cs v t o c p x,
+  coercion_free cs t o v = true -> to_cfg cs t o v = Ok c -> get p v = Some x ->
   exists y, get p c = Some y /\ veq x y = true.
 Proof. intros. eapply veq_get; [eapply to_cfg_preserves_values; eassumption | assumption]. Qed.
+
+(* ------------------------------------------------ top-level values of verify_training_cfg *)
+
+Lemma py_bool_of_str_shape : forall s c, py_bool_of_str s = Ok c -> exists b, c = VBool b.
+Proof.
+  intros s c H. unfold py_bool_of_str in H. destruct (py_int_of_str s).
+  - inversion H. eexists; reflexivity.
+  - destruct (negb (all_ascii s)); [discriminate|].
+    destruct (mem_str _ _); [inversion H; eexists; reflexivity|].
+    destruct (mem_str _ _); [inversion H; eexists; reflexivity|discriminate].
+  - discriminate.
+Qed.
+
+(* what the structured conversion returns is a fixed point of the top-level conversion: the
+   container to_sleap_nn_cfg produces is accepted verbatim by verify_training_cfg's first step *)
+Lemma to_cfg_top_fixed : forall st cs t o v c, to_cfg_gen st cs t o v = Ok c -> top_value cs t o c = Ok c.
+Proof.
+  intros st cs t o v c T. destruct v.
+  - destruct o, t; simpl in T; try discriminate T; inversion T; subst; reflexivity.
+  - simpl in T. inversion T. reflexivity.
+  - destruct st, t; simpl in T; try discriminate T; inversion T; subst; reflexivity.
+  - destruct st, t; simpl in T; try discriminate T; inversion T; subst; reflexivity.
+  - destruct st, t; simpl in T; try discriminate T; inversion T; subst; reflexivity.
+  - destruct st, t; simpl in T; try discriminate T; try (inversion T; subst; reflexivity);
+      destruct k; simpl in T; inversion T; subst; reflexivity.
+  - destruct st, t; simpl in T; try discriminate T; try (inversion T; subst; reflexivity).
+    + apply py_bool_of_str_shape in T. destruct T as [b ->]. reflexivity.
+    + destruct (py_int_of_str s); try discriminate T. inversion T. reflexivity.
+    + destruct (py_int_of_str s); try discriminate T. destruct (Z.leb _ _); [|discriminate T]. inversion T. reflexivity.
+  - destruct t; simpl in T; try discriminate T; try (inversion T; reflexivity).
+    apply bind_ok in T. destruct T as [l' [_ E]]. inversion E. reflexivity.
+  - destruct t; simpl in T; try discriminate T; try (inversion T; reflexivity).
+    apply bind_ok in T. destruct T as [l' [_ E]]. inversion E. reflexivity.
+  - destruct t; simpl in T; try discriminate T; inversion T; reflexivity.
+  - apply to_cfg_gen_obj_keys in T. destruct T as [kv' [-> _]]. reflexivity.
+Qed.
+
+Lemma top_value_idem : forall cs t o v c, top_value cs t o v = Ok c -> top_value cs t o c = Ok c.
+Proof.
+  intros cs t o v c T.
+  assert (forall w, (match t with
+                     | TCls _ => if o && is_none w then Ok VNone else Err ValidationError
+                     | _ => to_cfg cs t o w end) = Ok c -> top_value cs t o c = Ok c) as G.
+  { intros w H. destruct t; try (exact (to_cfg_top_fixed false cs _ o w c H)).
+    destruct (o && is_none w) eqn:E; [|discriminate H]. inversion H; subst.
+    apply andb_true_iff in E. destruct E as [-> _]. reflexivity. }
+  destruct v; simpl in T; try (inversion T; subst; reflexivity); try discriminate T; apply (G _ T).
+Qed.
+
+Lemma top_values_keys : forall cs c kv kv', top_values cs c kv = Ok kv' -> map fst kv' = map fst kv.
+Proof.
+  intros cs c. induction kv as [|[k v] r IH]; intros kv' H; simpl in H.
+  - inversion H. reflexivity.
+  - destruct (find_field c k); [|discriminate]. apply bind_ok in H. destruct H as [v' [_ H]].
+    apply bind_ok in H. destruct H as [r' [Hr H]]. inversion H; subst. simpl. f_equal. apply IH. exact Hr.
+Qed.
+
+Lemma top_values_lookup : forall cs c kv kv' k v', top_values cs c kv = Ok kv' -> lookup k kv' = Some v' ->
+  exists f v, find_field c k = Some f /\ top_value cs (f_ty f) (f_opt f) v = Ok v'.
+Proof.
+  intros cs c. induction kv as [|[k0 v0] r IH]; intros kv' k v' H L; simpl in H.
+  - inversion H; subst. discriminate L.
+  - destruct (find_field c k0) as [f|] eqn:F; [|discriminate]. apply bind_ok in H. destruct H as [v1 [Hv H]].
+    apply bind_ok in H. destruct H as [r' [Hr H]]. inversion H; subst. simpl in L.
+    destruct (String.eqb k k0) eqn:E.
+    + apply String.eqb_eq in E. subst k0. inversion L; subst. exists f, v0. split; assumption.
+    + exact (IH _ _ _ Hr L).
+Qed.
+
+Lemma top_values_fixed : forall cs c kv,
+  Forall (fun e => exists f, find_field c (fst e) = Some f /\ top_value cs (f_ty f) (f_opt f) (snd e) = Ok (snd e)) kv ->
+  top_values cs c kv = Ok kv.
+Proof.
+  intros cs c. induction kv as [|[k v] r IH]; intro F; [reflexivity|].
+  inversion F as [|e l [f [Hf Hv]] Hr]; subst. simpl in Hf, Hv |- *. rewrite Hf, Hv. simpl. rewrite (IH Hr). reflexivity.
+Qed.
+
+(* the merge into a schema whose fields are all leaves: the supplied value, else the default *)
+Lemma merge_fields_flat : forall {A} (name : A -> string) (dflt : A -> cfg) kv (l : list A),
+  merge_fields kv (map (fun f => (name f, SLeaf (dflt f))) l) =
+  Ok (map (fun f => (name f, match lookup (name f) kv with Some v => v | None => dflt f end)) l).
+Proof.
+  intros A name dflt kv. induction l as [|f r IH]; [reflexivity|].
+  simpl. destruct (lookup (name f) kv); simpl; change (merge_fields kv) with (merge_fields kv) in IH;
+    unfold merge_fields in IH |- *; rewrite IH; reflexivity.
+Qed.
+
+Lemma top_values_lookup_fwd : forall cs c kv kv' k v, top_values cs c kv = Ok kv' -> lookup k kv = Some v ->
+  exists f v', find_field c k = Some f /\ top_value cs (f_ty f) (f_opt f) v = Ok v' /\ lookup k kv' = Some v'.
+Proof.
+  intros cs c. induction kv as [|[k0 v0] r IH]; intros kv' k v H L; simpl in H; [discriminate L|].
+  destruct (find_field c k0) as [f|] eqn:F; [|discriminate]. apply bind_ok in H. destruct H as [v1 [Hv H]].
+  apply bind_ok in H. destruct H as [r' [Hr H]]. inversion H; subst. simpl in L |- *.
+  destruct (String.eqb k k0) eqn:E.
+  - apply String.eqb_eq in E. subst k0. inversion L; subst. exists f, v1. repeat split; assumption.
+  - exact (IH _ _ _ Hr L).
+Qed.
+
+(* the fields of a converted object are the conversions of its fields at their declared types *)
+Lemma to_cfg_gen_obj_entries : forall st cs t o n kv kv' c,
+  to_cfg_gen st cs t o (VObj n kv) = Ok (VDict kv') -> find_class cs n = Some c ->
+  Forall (fun e => exists f x, find_field c (fst e) = Some f /\ to_cfg_gen st cs (f_ty f) (f_opt f) x = Ok (snd e)) kv'.
+Proof.
+  intros st cs t o n kv kv' c H C. simpl in H. destruct (negb _); [discriminate|]. rewrite C in H.
+  apply bind_ok in H. destruct H as [kv0 [G E]]. inversion E; subst. clear E. revert kv' G.
+  induction kv as [|[k x] r IH]; intros kv' G.
+  - inversion G. constructor.
+  - destruct (find_field c k) as [f|] eqn:F; [|discriminate].
+    apply bind_ok in G. destruct G as [x' [Gx G]].
+    apply bind_ok in G. destruct G as [r' [Gr G]]. inversion G; subst.
+    constructor; [exists f, x; split; assumption | apply IH; exact Gr].
+Qed.
